@@ -135,7 +135,7 @@ class ImageInfo:
             for o in self.by_kind.get("inode", []):
                 i = img.inode(o.ino)
                 self.inodes[o.ino] = {"off": o.off, "fmt": i.fmt, "flags": i.flags,
-                                      "extra": i.extra_isize, "size": i.size}
+                                      "extra": i.extra_isize, "size": i.size, "isdir": i.is_dir()}
             self.gd_off = []
             for g in range(img.groups):
                 blk = img.gdt_location(g // img.descs_per_block)
@@ -162,7 +162,7 @@ STRUCT_KINDS = ["sb", "gd", "bitmap", "inode", "inode_iblock", "ext_node", "ind_
 KIND_WEIGHTS = {"sb": 10, "gd": 10, "bitmap": 8, "inode": 14, "inode_iblock": 10, "ext_node": 7,
                 "ind_block": 4, "dir_leaf": 12, "dx": 8, "xattr_block": 5, "xattr_inode": 4,
                 "journal_sb": 4, "special_inode": 6, "block_op": 6, "bytes": 8, "sb_backup": 1,
-                "mmp": 1, "orphan": 2, "quota_data": 2}
+                "mmp": 1, "orphan": 2, "quota_data": 2, "dir_clear": 2, "reloc": 2}
 
 
 class Universe:
@@ -239,6 +239,80 @@ class Universe:
         return Case(cid, name, patches, descr, cls, op_patches)
 
     # ---------------------------------------------------------------------------------
+    def _reloc(self, rng, inf):
+        """A block or inode bitmap of group g is moved, consistently, onto a block that belongs to
+        something else: its content is copied, the descriptor repointed (checksum recomputed), the
+        old block freed (block bitmap, bitmap checksum, group count, descriptor checksum).  What is
+        left is exactly one inconsistency: two owners for the target block."""
+        from .pyext4 import crc as _crc
+        with I.Image(inf.path) as img:
+            if img.groups < 2 or img.ratio != 1:
+                return None
+            sb = img.sb
+            bs = img.bs
+            gds = img.group_descs()
+            cand = [g for g in range(img.groups) if not (img.has_gdt_csum and
+                                                         gds[g].flags & (I.BG_BLOCK_UNINIT | I.BG_INODE_UNINIT))]
+            if not cand:
+                return None
+            g = rng.choice(cand)
+            which = rng.choice(["block_bitmap", "inode_bitmap"])
+            old = getattr(gds[g], which)
+            # targets: the backup superblock / descriptor blocks of another group, a block of
+            # another group's inode table, the first data block of some file
+            targets = []
+            for j in range(1, img.groups):
+                if j != g and img.bg_has_super(j):
+                    first = img.group_first_block(j)
+                    targets.append(("backup-sb grp%d" % j, first))
+                    targets.append(("backup-gdt grp%d" % j, first + 1))
+            for j in range(img.groups):
+                if j != g and gds[j].inode_table:
+                    targets.append(("itable grp%d" % j, gds[j].inode_table + rng.randrange(
+                        max(1, sb.s_inodes_per_group * img.inode_size // bs))))
+            if inf.by_kind.get("dir_leaf"):
+                o = rng.choice(inf.by_kind["dir_leaf"])
+                targets.append(("dirblock ino%d" % o.ino, o.off // bs))
+            if not targets:
+                return None
+            tname, T = rng.choice(targets)
+            if T <= 0 or T >= img.blocks_count or T == old:
+                return None
+            patches = [(T * bs, bytes(img.blk(old)))]
+            # the descriptor of g
+            off = inf.gd_off[g]
+            raw = bytearray(gds[g].raw)
+            lo = 0 if which == "block_bitmap" else 4
+            struct.pack_into("<I", raw, lo, T & 0xFFFFFFFF)
+            if img.is64 and img.desc_size >= 64:
+                struct.pack_into("<I", raw, 32 + lo, T >> 32)
+            # free the old block in its group's block bitmap
+            og = (old - sb.s_first_data_block) // sb.s_blocks_per_group
+            ogd = gds[og]
+            obm_blk = ogd.block_bitmap if not (og == g and which == "block_bitmap") else T
+            bm = bytearray(img.blk(ogd.block_bitmap))
+            bit = (old - sb.s_first_data_block) % sb.s_blocks_per_group
+            bm[bit >> 3] &= ~(1 << (bit & 7))
+            patches.append((obm_blk * bs, bytes(bm)))
+            if og == g and which == "block_bitmap":
+                patches[0] = (T * bs, bytes(bm))
+            oraw = raw if og == g else bytearray(ogd.raw)
+            fb = ogd.free_blocks + 1
+            struct.pack_into("<H", oraw, 12, fb & 0xFFFF)
+            if img.is64 and img.desc_size >= 64:
+                struct.pack_into("<H", oraw, 44, fb >> 16)
+            if img.has_csum:
+                c = _crc.crc32c(sb.csum_seed(), bytes(bm[:sb.s_clusters_per_group // 8]))
+                struct.pack_into("<H", oraw, 24, c & 0xFFFF)
+                if img.desc_size >= 64:
+                    struct.pack_into("<H", oraw, 56, c >> 16)
+            for gg, rr in ((g, raw),) + (((og, oraw),) if og != g else ()):
+                cs = img.gd_csum(gg, bytes(rr))
+                if cs is not None:
+                    struct.pack_into("<H", rr, 30, cs)
+                patches.append((inf.gd_off[gg], bytes(rr)))
+        return patches, ("gd", "bg_%s" % which, "relocate-onto", "grp%d blk%d -> %s blk%d" % (g, old, tname, T))
+
     def _field_patch(self, rng, inf, base_off, fields, kind, other_off=None):
         name, off, size = rng.choice(fields)
         raw = inf.read(base_off + off, size)
@@ -301,6 +375,22 @@ class Universe:
             if mode == "zero":
                 return [(o.off, bytes(nbits // 8))], (which, "all", "zero", "grp%d" % o.group)
             return [(o.off, b"\xff" * (nbits // 8))], (which, "all", "ones", "grp%d" % o.group)
+        if kind == "dir_clear":
+            # a directory inode is wiped: everything below it has to be reconnected
+            dirs = [i for i in sorted(inf.inodes) if i >= inf.first_ino and inf.inodes[i].get("isdir")]
+            if not dirs:
+                return None
+            ino = rng.choice(dirs)
+            how = rng.choice(["zero-inode", "zero-inode", "mode-0", "links-0+dtime"])
+            base = inf.inodes[ino]["off"]
+            if how == "zero-inode":
+                return [(base, bytes(128))], ("inode", "dir", "zero-inode", "ino%d" % ino)
+            if how == "mode-0":
+                return [(base, b"\0\0")], ("inode", "dir", "mode-0", "ino%d" % ino)
+            return [(base + 26, b"\0\0"), (base + 20, b"\x01\x02\x03\x04")], \
+                ("inode", "dir", "links-0+dtime", "ino%d" % ino)
+        if kind == "reloc":
+            return self._reloc(rng, inf)
         if kind in ("inode", "inode_iblock", "special_inode", "xattr_inode"):
             inos = sorted(inf.inodes)
             if not inos:
